@@ -5,6 +5,7 @@ import (
 	"go/token"
 	"go/types"
 	"math/big"
+	"strings"
 
 	"golang.org/x/tools/go/ssa"
 )
@@ -45,31 +46,6 @@ func init() {
 		Mutant{"C44", "handler-same-query-twice", "internal/api/api_srt.go",
 			"paginate(&data.Items, ctx.Query(\"itemsPerPage\"), ctx.Query(\"page\"))", "paginate(&data.Items, ctx.Query(\"itemsPerPage\"), ctx.Query(\"itemsPerPage\"))", "C44.caller.query_role"},
 	)
-}
-
-// parseUintEdge describes one non-constant source of a paginate2 argument:
-// int(strconv.ParseUint(str, base, bits)#0).
-type parseUintEdge struct {
-	call    *ssa.Call
-	extract ssa.Value
-	strArg  ssa.Value
-	bits    int64
-}
-
-func asParseUint(v ssa.Value) *parseUintEdge {
-	ex, ok := stripConv(v).(*ssa.Extract)
-	if !ok || ex.Index != 0 {
-		return nil
-	}
-	call, ok := ex.Tuple.(*ssa.Call)
-	if !ok || calleeName(&call.Call) != "strconv.ParseUint" || len(call.Call.Args) != 3 {
-		return nil
-	}
-	b, ok := constBig(call.Call.Args[2])
-	if !ok {
-		return nil
-	}
-	return &parseUintEdge{call, ex, call.Call.Args[0], b.Int64()}
 }
 
 // queryKeysR3c44 resolves a string value to the names of the gin query
@@ -134,23 +110,18 @@ func queryKeysR3c44(v ssa.Value, depth int) (keys []string, ok bool) {
 	return nil, false
 }
 
-func phiEdges(v ssa.Value) []ssa.Value {
-	if ph, ok := v.(*ssa.Phi); ok {
-		return ph.Edges
-	}
-	return []ssa.Value{v}
-}
-
 func runC44(c *Ctx) {
+	defer dumpObls(c)
 	p := c.Main()
 	if p == nil {
 		return
 	}
-	c.Explain = "C44.reject.*: E1 must-pass on api.paginate (parse error / zero itemsPerPage never reach paginate2; nil error only with paginate2's result). " +
+	c.Explain = "C44.reject.* / C44.seed.arg_source: decided on every feasible path of api.paginate, new helpers entered, values resolved per path (prop_gen_c44.go): a parse error / zero itemsPerPage never reaches paginate2; nil error only with paginate2's result. " +
 		"C44.seed.*: paginate2 has exactly one call site and is not used as a value, its arguments are int(ParseUint(itemsPerPageStr))|const and int(ParseUint(pageStr))|const. " +
 		"C44.no_overflow / C44.divisor_nonzero: E8 interval propagation through every integer +,-,*,conversion,/,% of paginate and paginate2 for int = 64 and 32 bits. " +
 		"C44.slice.*: the reflect Slice bounds are min(page*ipp, L), min((page+1)*ipp | page*ipp+ipp, L) with L = Len of the very value sliced and Set. " +
 		"C44.page_count: L/ipp (+1 iff L%ipp != 0), 0 iff L == 0. C44.caller.*: 15 handlers pass &slice and answer 200 only after a nil error. C44.caller.query_role: at each of them paginate's itemsPerPage/page string arguments are (*gin.Context).Query/DefaultQuery/GetQuery of the constant keys itemsPerPage / page respectively (through locals, phis and new helpers). " +
+		"Values are compared through conversions, named locals and new helpers (parameters = arguments, results = returned values); the callers of paginate are its logical call sites (a forwarding helper counts once per call site of the helper). " +
 		"Not decided: value-level concatenation identity, reflect internals."
 	c.Assume = []string{
 		"strconv.ParseUint(s, 10, b) returns a value in [0, 2^b-1] when err == nil",
@@ -168,83 +139,210 @@ func runC44(c *Ctx) {
 		return
 	}
 
-	// ---- (2) only caller
+	// ---- (2) only caller: one call instruction, and it belongs to paginate
+	// (written in paginate itself or in a new helper only paginate reaches)
 	sites, escapes := callSitesOf(p, p2)
+	owned := false
+	if len(sites) == 1 {
+		ow := ownersG4(sites[0])
+		owned = len(ow) == 1 && ow[0] == pg
+	}
 	c.Check("C44.seed.only_caller", "paginate2: single static call site in api.paginate, never used as a value",
-		len(sites) == 1 && len(escapes) == 0 && sites[0].Parent() == pg, p.Pos(p2.Pos()), fmt.Sprintf("%d call sites, %d value uses", len(sites), len(escapes)))
-	if len(sites) != 1 || sites[0].Parent() != pg {
+		len(sites) == 1 && len(escapes) == 0 && owned, p.Pos(p2.Pos()), fmt.Sprintf("%d call sites, %d value uses", len(sites), len(escapes)))
+	if len(sites) != 1 || !owned {
 		return
 	}
-	pcall := sites[0].(*ssa.Call)
-	isPcall := func(i ssa.Instruction) bool { return i == ssa.Instruction(pcall) }
-	if len(pcall.Call.Args) != 3 || len(pg.Params) != 3 || len(p2.Params) != 3 {
+	pcall, isCall := sites[0].(*ssa.Call)
+	if !isCall || len(pcall.Call.Args) != 3 || len(pg.Params) != 3 || len(p2.Params) != 3 {
 		c.Undecided("UNRESOLVED ANCHOR paginate/paginate2 arity")
 		return
 	}
 
-	// ---- (1) argument sources and rejections
+	// ---- (1) argument sources and rejections, decided per feasible path of
+	// paginate (prop_gen_c44.go): at every execution of the paginate2 call the
+	// argument IS a constant or ParseUint(<its string parameter>)#0, every
+	// ParseUint of that parameter executed before it returned a nil error, it
+	// ran only for a non-empty string, and a parsed itemsPerPage was tested
+	// non-zero. Where the statements sit (paginate, a new helper returning
+	// (value, error), locals, early returns) does not matter.
+	paths, why := enumPathsG4(pg)
+	if why != "" {
+		c.Undecided("paginate cannot be decided path by path: " + why)
+		return
+	}
+	type execG4 struct {
+		pi  *pathG4
+		idx int
+		env *envG4
+	}
+	var execs []execG4
+	for _, pi := range paths {
+		for idx, k := range pi.calls {
+			if k.v == ssa.Value(pcall) {
+				execs = append(execs, execG4{pi, idx, k.env})
+			}
+		}
+	}
+	if len(execs) == 0 {
+		c.Undecided("UNRESOLVED ANCHOR no feasible path of paginate reaches paginate2")
+		return
+	}
+	// asPU: the resolved value is strconv.ParseUint(s, _, const bits)#0
+	asPU := func(pi *pathG4, x rvalG4) (call *ssa.Call, bits int64, ok bool) {
+		ex, isEx := x.v.(*ssa.Extract)
+		if !isEx || ex.Index != 0 {
+			return nil, 0, false
+		}
+		cl, isC := ex.Tuple.(*ssa.Call)
+		if !isC || calleeName(&cl.Call) != "strconv.ParseUint" || len(cl.Call.Args) != 3 {
+			return nil, 0, false
+		}
+		b, isK := constBig(pi.resolve(rvalG4{cl.Call.Args[2], x.env}).v)
+		if !isK {
+			return nil, 0, false
+		}
+		return cl, b.Int64(), true
+	}
+	errKey := func(pi *pathG4, cl *ssa.Call, env *envG4) string {
+		return eqKeyG4("ext("+pi.key(rvalG4{cl, env})+")#1", "c:nil")
+	}
 	type argInfo struct {
 		name   string
 		strPar *ssa.Parameter
-		pus    []*parseUintEdge
-		ok     bool
 	}
 	args := []*argInfo{{name: "itemsPerPage", strPar: pg.Params[1]}, {name: "page", strPar: pg.Params[2]}}
 	for k, ai := range args {
-		v := pcall.Call.Args[k+1]
-		ai.ok = true
-		nPU := 0
-		for _, e := range phiEdges(v) {
-			if _, isC := constBig(e); isC {
-				continue
+		srcOK, nPU := true, 0
+		got := map[string]bool{}
+		errOK := map[string]bool{}  // description of a ParseUint call -> its error was tested nil before every paginate2
+		usedOK := map[string]bool{} // -> it ran only for a supplied (non-empty) string
+		zeroOK := map[string]bool{}
+		strEmptyKey := func(pi *pathG4) string { return eqKeyG4(pi.key(rvalG4{ai.strPar, nil}), `c:""`) }
+		for _, ex := range execs {
+			a := ex.pi.resolve(rvalG4{pcall.Call.Args[k+1], ex.env})
+			got[descG4(a)] = true
+			if _, isC := constBig(a.v); !isC {
+				cl, _, isPU := asPU(ex.pi, a)
+				if !isPU || ex.pi.resolve(rvalG4{cl.Call.Args[0], a.env}).v != ssa.Value(ai.strPar) {
+					srcOK = false
+				} else {
+					nPU++
+					if k == 0 {
+						d := descG4(a)
+						if _, seen := zeroOK[d]; !seen {
+							zeroOK[d] = true
+						}
+						if !ex.pi.nonZero(a, ex.idx) {
+							zeroOK[d] = false
+						}
+					}
+				}
 			}
-			pu := asParseUint(e)
-			if pu == nil || pu.strArg != ssa.Value(ai.strPar) {
-				ai.ok = false
-				continue
+			// every ParseUint of this parameter that ran before paginate2
+			for j, q := range ex.pi.calls[:ex.idx] {
+				cl := q.v.(*ssa.Call)
+				if calleeName(&cl.Call) != "strconv.ParseUint" || len(cl.Call.Args) != 3 || ex.pi.resolve(rvalG4{cl.Call.Args[0], q.env}).v != ssa.Value(ai.strPar) {
+					continue
+				}
+				d := descG4(rvalG4{cl, q.env})
+				if _, seen := errOK[d]; !seen {
+					errOK[d], usedOK[d] = true, true
+				}
+				if !ex.pi.holds(errKey(ex.pi, cl, q.env), true, ex.idx) {
+					errOK[d] = false
+				}
+				if !ex.pi.holds(strEmptyKey(ex.pi), false, j) {
+					usedOK[d] = false
+				}
 			}
-			nPU++
-			ai.pus = append(ai.pus, pu)
+		}
+		// ParseUint executions on paths that never reach paginate2 must be guarded too
+		for _, pi := range paths {
+			for j, q := range pi.calls {
+				cl := q.v.(*ssa.Call)
+				if calleeName(&cl.Call) != "strconv.ParseUint" || len(cl.Call.Args) != 3 || pi.resolve(rvalG4{cl.Call.Args[0], q.env}).v != ssa.Value(ai.strPar) {
+					continue
+				}
+				d := descG4(rvalG4{cl, q.env})
+				if _, seen := usedOK[d]; !seen {
+					usedOK[d] = true
+				}
+				if !pi.holds(strEmptyKey(pi), false, j) {
+					usedOK[d] = false
+				}
+			}
 		}
 		c.Check("C44.seed.arg_source", fmt.Sprintf("paginate: paginate2 argument %d (%s) is a constant or int(strconv.ParseUint($%d, _, const)#0)", k+1, ai.name, k+1),
-			ai.ok && nPU >= 1, p.Pos(pcall.Pos()), "got "+desc(v))
+			srcOK && nPU >= 1, p.Pos(pcall.Pos()), "got "+strings.Join(sortedKeys(got), " | ")+" on the feasible paths")
 		strEmpty := "(" + desc(ai.strPar) + ` == "")`
-		for _, pu := range ai.pus {
-			errNil := "(" + desc(pu.call) + "#1 == nil)"
-			c.MustPass(p, pg, "C44.reject.parse_error", "call paginate2 ("+ai.name+")", isPcall, T(strEmpty), T(errNil))
-			// a parsed value is used only when the string was supplied
-			c.MustPass(p, pg, "C44.reject.parse_error", "call strconv.ParseUint ("+ai.name+")", func(i ssa.Instruction) bool { return i == ssa.Instruction(pu.call) }, F(strEmpty))
+		for _, d := range sortedKeys(errOK) {
+			c.Check("C44.reject.parse_error", fnName(pg)+": call paginate2 ("+ai.name+") ⇒ "+altsStr([]LitPat{T(strEmpty), T("(" + d + "#1 == nil)")}), errOK[d], p.Pos(pcall.Pos()),
+				"on every feasible path the error of every "+d+" executed before paginate2 was tested nil")
+		}
+		for _, d := range sortedKeys(usedOK) {
+			c.Check("C44.reject.parse_error", fnName(pg)+": call strconv.ParseUint ("+ai.name+") ⇒ "+altsStr([]LitPat{F(strEmpty)}), usedOK[d], p.Pos(pg.Pos()),
+				d+" runs only after the string was tested non-empty")
+		}
+		for _, d := range sortedKeys(zeroOK) {
+			c.Check("C44.reject.zero_items", fnName(pg)+": call paginate2 ⇒ "+altsStr([]LitPat{T(strEmpty), F("(" + d + " == 0)")}), zeroOK[d], p.Pos(pcall.Pos()),
+				"on every feasible path a parsed itemsPerPage was tested non-zero before paginate2")
 		}
 	}
-	zeroGuard := false
-	if len(args[0].pus) == 1 {
-		pu := args[0].pus[0]
-		zeroGuard = c.MustPass(p, pg, "C44.reject.zero_items", "call paginate2", isPcall,
-			T("("+desc(args[0].strPar)+` == "")`), F("("+desc(pu.extract)+" == 0)"))
-	}
-	for _, r := range returnsOf(pg) {
-		if r.Block().Comment == "recover" || len(r.Results) != 2 {
-			continue
+	// a return with a nil error (the constant, or a value tested nil on the
+	// path) carries the result of the paginate2 call executed on that path
+	{
+		type retAgg struct {
+			ok     bool
+			detail string
 		}
-		if isNilConst(retVal(r, 1)) {
-			c.Check("C44.reject.nil_error_only_with_result", "paginate: return with nil error carries paginate2's result", retVal(r, 0) == ssa.Value(pcall),
-				p.Pos(posOf(r, pg)), "got "+desc(retVal(r, 0)))
+		agg := map[*ssa.Return]*retAgg{}
+		var order []*ssa.Return
+		for _, pi := range paths {
+			r := pi.end
+			if r == nil || r.Block().Comment == "recover" || len(r.Results) != 2 {
+				continue
+			}
+			e := pi.resolve(rvalG4{retVal(r, 1), nil})
+			if !isNilConst(e.v) && !pi.holds(eqKeyG4(pi.key(e), "c:nil"), true, -1) {
+				continue
+			}
+			if agg[r] == nil {
+				agg[r] = &retAgg{ok: true}
+				order = append(order, r)
+			}
+			res := pi.resolve(rvalG4{retVal(r, 0), nil})
+			ran := false
+			for _, k := range pi.calls {
+				ran = ran || k.v == ssa.Value(pcall)
+			}
+			if res.v != ssa.Value(pcall) || !ran {
+				agg[r].ok = false
+				agg[r].detail = "got " + descG4(res)
+			}
+		}
+		for _, r := range order {
+			c.Check("C44.reject.nil_error_only_with_result", "paginate: return with nil error carries paginate2's result", agg[r].ok, p.Pos(posOf(r, pg)), agg[r].detail)
 		}
 	}
 
 	// ---- (3) intervals per released int width
 	archs := []string{"amd64", "arm64", "arm"}
-	psites, pesc := callSitesOf(p, pg)
+	_, pesc := callSitesOf(p, pg)
+	// The callers of paginate are its LOGICAL call sites: a call written in a
+	// new forwarding helper (`func (a *API) paginateQuery(ctx, itemsPtr any)`)
+	// counts once per call site of the helper, with the helper's parameters
+	// standing for that site's arguments.
+	psites := ctxSitesOfG4(p, pg)
 	// Len() of a slice with elements of size s is at most maxInt/s: the
 	// smallest element size over all callers bounds paginate2's Len.
 	minElemSize := func(sz types.Sizes) int64 {
 		m := int64(-1)
 		for _, s := range psites {
-			cc := callCommon(s)
+			cc := callCommon(s.call)
 			if cc == nil || len(cc.Args) == 0 {
 				return 1
 			}
-			pt, ok := stripConv(cc.Args[0]).Type().Underlying().(*types.Pointer)
+			pt, ok := peelG4(rvalG4{cc.Args[0], s.env}).v.Type().Underlying().(*types.Pointer)
 			if !ok {
 				return 1
 			}
@@ -266,16 +364,19 @@ func runC44(c *Ctx) {
 		return m
 	}
 	seenW := map[int]bool{}
+	// the reflect calls of paginate2, in paginate2 itself or in a new helper
+	// extracted from it (then with the call sites they are interpreted for)
 	var lenCall, sliceCall, setCall *ssa.Call
-	eachInstr(p2, func(i ssa.Instruction) {
+	var lenEnv, sliceEnv, setEnv *envG4
+	eachInstrCtxG4(p2, nil, func(i ssa.Instruction, env *envG4) {
 		if cl, ok := i.(*ssa.Call); ok {
 			switch calleeName(&cl.Call) {
 			case "(reflect.Value).Len":
-				lenCall = cl
+				lenCall, lenEnv = cl, env
 			case "(reflect.Value).Slice":
-				sliceCall = cl
+				sliceCall, sliceEnv = cl, env
 			case "(reflect.Value).Set":
-				setCall = cl
+				setCall, setEnv = cl, env
 			}
 		}
 	})
@@ -296,34 +397,70 @@ func runC44(c *Ctx) {
 		}
 		seenW[W] = true
 		wname := fmt.Sprintf("int%d", W)
-		mk := func(fn *ssa.Function, env map[ssa.Value]ival) *ivEval {
-			return &ivEval{intBits: W, env: env,
-				overflow: func(v ssa.Value, exact, typ ival) {
-					c.Check("C44.no_overflow."+wname, fnName(fn)+": "+desc(v)+" stays within "+typeStr(v.Type())+" ("+wname+")", false, p.Pos(posOf(v.(ssa.Instruction), fn)),
-						"exact range "+exact.String()+" exceeds "+typ.String())
-				},
-				fits: func(v ssa.Value, exact, typ ival) {
-					c.Check("C44.no_overflow."+wname, fnName(fn)+": "+desc(v)+" stays within "+typeStr(v.Type())+" ("+wname+")", true, p.Pos(posOf(v.(ssa.Instruction), fn)), "range "+exact.String())
-				}}
-		}
 		// caller side: ranges of the two arguments
-		envPg := map[ssa.Value]ival{}
-		for k, ai := range args {
-			for _, pu := range ai.pus {
-				hi := new(big.Int).Lsh(big.NewInt(1), uint(pu.bits))
+		// Evaluated on every feasible path that executes the call and joined: a
+		// ParseUint(_, _, b)#0 is in [0, 2^b-1], and in [1, 2^b-1] on a path that
+		// tested it non-zero before the call; every conversion on the way (in
+		// paginate or in a new helper it calls) must stay inside its type.
+		type ovObl struct {
+			ok          bool
+			pos, detail string
+		}
+		ovs := map[string]*ovObl{}
+		var ovOrder []string
+		note := func(env *envG4, v ssa.Value, ok bool, detail string) {
+			key := fnName(pg) + ": " + descG4(rvalG4{v, env}) + " stays within " + typeStr(v.Type()) + " (" + wname + ")"
+			o := ovs[key]
+			if o == nil {
+				o = &ovObl{ok: true, pos: p.Pos(posOf(v.(ssa.Instruction), pg))}
+				ovs[key] = o
+				ovOrder = append(ovOrder, key)
+			}
+			if !ok || o.detail == "" {
+				o.detail = detail
+			}
+			o.ok = o.ok && ok
+		}
+		mkPg := func(env *envG4, ops map[ssa.Value]ival) *ivEval {
+			return &ivEval{intBits: W, env: ops,
+				overflow: func(v ssa.Value, exact, typ ival) {
+					note(env, v, false, "exact range "+exact.String()+" exceeds "+typ.String())
+				},
+				fits: func(v ssa.Value, exact, typ ival) { note(env, v, true, "range "+exact.String()) }}
+		}
+		var rIPP, rPage ival
+		var unknown []rvalG4
+		for _, ex := range execs {
+			ex := ex
+			seed := func(x rvalG4) (ival, bool) {
+				_, bits, ok := asPU(ex.pi, x)
+				if !ok || bits < 0 || bits > 64 {
+					return ival{}, false
+				}
+				if bits == 0 {
+					bits = int64(W) // strconv: bitSize 0 means int
+				}
+				hi := new(big.Int).Lsh(big.NewInt(1), uint(bits))
 				hi.Sub(hi, big.NewInt(1))
 				lo := big.NewInt(0)
-				if k == 0 && zeroGuard {
+				if ex.pi.nonZero(x, ex.idx) {
 					lo = big.NewInt(1)
 				}
-				envPg[pu.extract] = ival{lo, hi}
+				return ival{lo, hi}, true
+			}
+			a := ivOnPathG4(ex.pi, rvalG4{pcall.Call.Args[1], ex.env}, seed, mkPg, &unknown)
+			b := ivOnPathG4(ex.pi, rvalG4{pcall.Call.Args[2], ex.env}, seed, mkPg, &unknown)
+			if rIPP.lo == nil {
+				rIPP, rPage = a, b
+			} else {
+				rIPP, rPage = ivUnion(rIPP, a), ivUnion(rPage, b)
 			}
 		}
-		evPg := mk(pg, envPg)
-		rIPP := evPg.eval(pcall.Call.Args[1])
-		rPage := evPg.eval(pcall.Call.Args[2])
-		if len(evPg.unknown) > 0 {
-			c.Undecided("paginate: argument of paginate2 has an unbounded component: " + desc(evPg.unknown[0]))
+		for _, k := range ovOrder {
+			c.Check("C44.no_overflow."+wname, k, ovs[k].ok, ovs[k].pos, ovs[k].detail)
+		}
+		if len(unknown) > 0 {
+			c.Undecided("paginate: argument of paginate2 has an unbounded component: " + descG4(unknown[0]))
 		}
 		seedIPP, seedPage = rIPP, rPage
 		c.Check("C44.seed.range", "paginate: itemsPerPage passed to paginate2 is >= 1 ("+wname+")", rIPP.lo.Sign() > 0, p.Pos(pcall.Pos()), "range "+rIPP.String())
@@ -331,13 +468,36 @@ func runC44(c *Ctx) {
 
 		// callee side
 		maxInt, _ := intRange(types.Typ[types.Int], W)
-		env2 := map[ssa.Value]ival{
-			p2.Params[1]: rIPP,
-			p2.Params[2]: rPage,
-			lenCall:      {big.NewInt(0), new(big.Int).Quo(maxInt.hi, big.NewInt(minElemSize(sz)))},
+		// Every integer +,-,* (and the conversions under them) of paginate2 and of
+		// the new helpers it calls, each helper parameter standing for the
+		// argument of the call site it is evaluated for.
+		lenIv := ival{big.NewInt(0), new(big.Int).Quo(maxInt.hi, big.NewInt(minElemSize(sz)))}
+		seed2 := func(x rvalG4) (ival, bool) {
+			switch x.v {
+			case ssa.Value(p2.Params[1]):
+				return rIPP, true
+			case ssa.Value(p2.Params[2]):
+				return rPage, true
+			case ssa.Value(lenCall):
+				return lenIv, true
+			}
+			return ival{}, false
 		}
-		ev2 := mk(p2, env2)
-		eachInstr(p2, func(i ssa.Instruction) {
+		mk2 := func(env *envG4, ops map[ssa.Value]ival) *ivEval {
+			key := func(v ssa.Value) string {
+				return fnName(p2) + ": " + descG4(rvalG4{v, env}) + " stays within " + typeStr(v.Type()) + " (" + wname + ")"
+			}
+			return &ivEval{intBits: W, env: ops,
+				overflow: func(v ssa.Value, exact, typ ival) {
+					c.Check("C44.no_overflow."+wname, key(v), false, p.Pos(posOf(v.(ssa.Instruction), p2)), "exact range "+exact.String()+" exceeds "+typ.String())
+				},
+				fits: func(v ssa.Value, exact, typ ival) {
+					c.Check("C44.no_overflow."+wname, key(v), true, p.Pos(posOf(v.(ssa.Instruction), p2)), "range "+exact.String())
+				}}
+		}
+		memo2 := map[string]*ival{}
+		var unknown2 []rvalG4
+		eachInstrCtxG4(p2, nil, func(i ssa.Instruction, env *envG4) {
 			b, ok := i.(*ssa.BinOp)
 			if !ok {
 				return
@@ -347,67 +507,91 @@ func runC44(c *Ctx) {
 			}
 			switch b.Op {
 			case token.ADD, token.SUB, token.MUL:
-				ev2.eval(b)
+				ivStaticG4(rvalG4{b, env}, seed2, mk2, memo2, &unknown2)
 			case token.QUO, token.REM:
-				d := ev2.eval(b.Y)
-				c.Check("C44.divisor_nonzero", fnName(p2)+": divisor of "+desc(b)+" excludes 0 ("+wname+")", !d.contains(0), p.Pos(b.Pos()), "divisor range "+d.String())
+				d := ivStaticG4(rvalG4{b.Y, env}, seed2, mk2, memo2, &unknown2)
+				c.Check("C44.divisor_nonzero", fnName(p2)+": divisor of "+descG4(rvalG4{b, env})+" excludes 0 ("+wname+")", !d.contains(0), p.Pos(b.Pos()), "divisor range "+d.String())
 			}
 		})
 	}
 
 	// ---- (4) shape of the slice
-	recv := lenCall.Call.Args[0]
+	// Values are compared after peeling (prop_gen_c42.go): conversions, named
+	// locals, parameters of new helpers (-> the argument of their call) and
+	// results of new helpers (-> the value they return). Lossless
+	// widening/narrowing conversions around the operands (the bound arithmetic
+	// may be done in int64) are transparent for the shape; their ranges are
+	// decided by the interval rules above.
+	pv := func(v ssa.Value, env *envG4) rvalG4 { return peelG4(rvalG4{v, env}) }
+	recv := pv(lenCall.Call.Args[0], lenEnv)
 	c.Check("C44.slice.recv", "paginate2: Len, Slice and Set act on the same reflect value, Set stores the Slice result",
-		sliceCall.Call.Args[0] == recv && setCall.Call.Args[0] == recv && setCall.Call.Args[1] == ssa.Value(sliceCall), p.Pos(sliceCall.Pos()), "")
+		sameG4(pv(sliceCall.Call.Args[0], sliceEnv), recv) && sameG4(pv(setCall.Call.Args[0], setEnv), recv) && pv(setCall.Call.Args[1], setEnv).v == ssa.Value(sliceCall), p.Pos(sliceCall.Pos()), "")
 	c.Check("C44.slice.recv", "paginate2: the reflect value is Elem(ValueOf(items pointer parameter))",
-		desc(recv) == "(reflect.Value).Elem(reflect.ValueOf($0))", p.Pos(sliceCall.Pos()), desc(recv))
+		descG4(recv) == "(reflect.Value).Elem(reflect.ValueOf($0))", p.Pos(sliceCall.Pos()), descG4(recv))
 	ipp, page := ssa.Value(p2.Params[1]), ssa.Value(p2.Params[2])
-	// lossless widening/narrowing conversions around the operands (the bound
-	// arithmetic may be done in int64) are transparent for the shape; their
-	// ranges are decided by the interval rules above.
-	minWithLen := func(v ssa.Value) ssa.Value { // min(X, L) -> X
-		cl, ok := stripConv(v).(*ssa.Call)
+	isV := func(w ssa.Value) func(rvalG4) bool { return func(x rvalG4) bool { return peelG4(x).v == w } }
+	minWithLen := func(x rvalG4) (rvalG4, bool) { // min(X, L) -> X
+		x = peelG4(x)
+		cl, ok := x.v.(*ssa.Call)
 		if !ok {
-			return nil
+			return x, false
 		}
 		bi, ok := cl.Call.Value.(*ssa.Builtin)
 		if !ok || bi.Name() != "min" || len(cl.Call.Args) != 2 {
-			return nil
+			return x, false
 		}
-		if stripConv(cl.Call.Args[1]) == ssa.Value(lenCall) {
-			return stripConv(cl.Call.Args[0])
+		a0, a1 := pv(cl.Call.Args[0], x.env), pv(cl.Call.Args[1], x.env)
+		if a1.v == ssa.Value(lenCall) {
+			return a0, true
 		}
-		if stripConv(cl.Call.Args[0]) == ssa.Value(lenCall) {
-			return stripConv(cl.Call.Args[1])
+		if a0.v == ssa.Value(lenCall) {
+			return a1, true
 		}
-		return nil
+		return x, false
 	}
-	isMul := func(v ssa.Value, a, b func(ssa.Value) bool) bool {
-		m, ok := stripConv(v).(*ssa.BinOp)
-		return ok && m.Op == token.MUL && ((a(m.X) && b(m.Y)) || (a(m.Y) && b(m.X)))
+	isMul := func(x rvalG4, a, b func(rvalG4) bool) bool {
+		x = peelG4(x)
+		m, ok := x.v.(*ssa.BinOp)
+		if !ok || m.Op != token.MUL {
+			return false
+		}
+		mx, my := rvalG4{m.X, x.env}, rvalG4{m.Y, x.env}
+		return (a(mx) && b(my)) || (a(my) && b(mx))
 	}
-	is := func(w ssa.Value) func(ssa.Value) bool { return func(v ssa.Value) bool { return stripConv(v) == w } }
-	isPagePlus1 := func(v ssa.Value) bool {
-		a, ok := stripConv(v).(*ssa.BinOp)
+	oneG := func(x rvalG4) bool { n, ok := constBig(peelG4(x).v); return ok && n.Cmp(big.NewInt(1)) == 0 }
+	isPagePlus1 := func(x rvalG4) bool {
+		x = peelG4(x)
+		a, ok := x.v.(*ssa.BinOp)
 		if !ok || a.Op != token.ADD {
 			return false
 		}
-		one := func(x ssa.Value) bool { n, ok := constBig(x); return ok && n.Cmp(big.NewInt(1)) == 0 }
-		return (stripConv(a.X) == page && one(a.Y)) || (stripConv(a.Y) == page && one(a.X))
+		ax, ay := rvalG4{a.X, x.env}, rvalG4{a.Y, x.env}
+		return (isV(page)(ax) && oneG(ay)) || (isV(page)(ay) && oneG(ax))
 	}
-	lo, hi := minWithLen(sliceCall.Call.Args[1]), minWithLen(sliceCall.Call.Args[2])
-	loOK := lo != nil && isMul(lo, is(page), is(ipp))
-	c.Check("C44.slice.lower", "paginate2: Slice lower bound is min(page*itemsPerPage, Len)", loOK, p.Pos(sliceCall.Pos()), "got "+desc(sliceCall.Call.Args[1]))
+	lo, loIs := minWithLen(rvalG4{sliceCall.Call.Args[1], sliceEnv})
+	hi, hiIs := minWithLen(rvalG4{sliceCall.Call.Args[2], sliceEnv})
+	loOK := loIs && isMul(lo, isV(page), isV(ipp))
+	c.Check("C44.slice.lower", "paginate2: Slice lower bound is min(page*itemsPerPage, Len)", loOK, p.Pos(sliceCall.Pos()), "got "+descG4(rvalG4{sliceCall.Call.Args[1], sliceEnv}))
 	hiOK := false
-	if hi != nil {
-		if isMul(hi, isPagePlus1, is(ipp)) {
+	if hiIs {
+		if isMul(hi, isPagePlus1, isV(ipp)) {
 			hiOK = true
-		} else if a, ok := stripConv(hi).(*ssa.BinOp); ok && a.Op == token.ADD {
-			pq := func(v ssa.Value) bool { return isMul(v, is(page), is(ipp)) }
-			hiOK = (pq(a.X) && stripConv(a.Y) == ipp) || (pq(a.Y) && stripConv(a.X) == ipp)
+		} else if a, ok := hi.v.(*ssa.BinOp); ok && a.Op == token.ADD {
+			pq := func(x rvalG4) bool { return isMul(x, isV(page), isV(ipp)) }
+			ax, ay := rvalG4{a.X, hi.env}, rvalG4{a.Y, hi.env}
+			hiOK = (pq(ax) && isV(ipp)(ay)) || (pq(ay) && isV(ipp)(ax))
+			// lower + ipp with the clamped lower bound itself, lower = min(page*ipp, L)
+			// (C44.slice.lower): if page*ipp <= L this is page*ipp+ipp; otherwise
+			// lower = L and min(L+ipp, L) = L = min((page+1)*ipp, L) because ipp >= 1
+			// (C44.slice.nonneg). The sum's range is decided by the interval rule.
+			if !hiOK && loOK {
+				lowArg := pv(sliceCall.Call.Args[1], sliceEnv)
+				isLow := func(x rvalG4) bool { y := peelG4(x); return y.v == lowArg.v && sameG4(y, lowArg) }
+				hiOK = (isLow(ax) && isV(ipp)(ay)) || (isLow(ay) && isV(ipp)(ax))
+			}
 		}
 	}
-	c.Check("C44.slice.upper", "paginate2: Slice upper bound is min((page+1)*itemsPerPage, Len)", hiOK, p.Pos(sliceCall.Pos()), "got "+desc(sliceCall.Call.Args[2]))
+	c.Check("C44.slice.upper", "paginate2: Slice upper bound is min((page+1)*itemsPerPage, Len)", hiOK, p.Pos(sliceCall.Pos()), "got "+descG4(rvalG4{sliceCall.Call.Args[2], sliceEnv}))
 	if seedIPP.lo != nil {
 		c.Check("C44.slice.nonneg", "paginate2: page >= 0 and itemsPerPage >= 1 at the Slice (so lower <= upper and both in [0, Len] absent overflow)",
 			seedPage.lo.Sign() >= 0 && seedIPP.lo.Sign() > 0, p.Pos(sliceCall.Pos()), "page "+seedPage.String()+" itemsPerPage "+seedIPP.String())
@@ -415,17 +599,36 @@ func runC44(c *Ctx) {
 
 	// ---- (5) page count
 	L := ssa.Value(lenCall)
-	isQuo := func(v ssa.Value) bool {
-		b, ok := v.(*ssa.BinOp)
-		return ok && b.Op == token.QUO && b.X == L && b.Y == ipp
+	// Len/ipp over the very Len() result and the page-size parameter, wherever
+	// the division is written (paginate2 or a new helper it hands them to).
+	// No conversion may sit between: peelInt only follows names and helpers.
+	peelInt := func(x rvalG4) rvalG4 {
+		for n := 0; n < 64; n++ {
+			if ct, ok := x.v.(*ssa.ChangeType); ok {
+				x.v = ct.X
+				continue
+			}
+			y, ok := stepG4(x)
+			if !ok {
+				break
+			}
+			x = y
+		}
+		return x
 	}
-	isQuoPlus1 := func(v ssa.Value) bool {
-		a, ok := v.(*ssa.BinOp)
+	isQuo := func(x rvalG4) bool {
+		x = peelInt(x)
+		b, ok := x.v.(*ssa.BinOp)
+		return ok && b.Op == token.QUO && peelInt(rvalG4{b.X, x.env}).v == L && peelInt(rvalG4{b.Y, x.env}).v == ipp
+	}
+	isQuoPlus1 := func(x rvalG4) bool {
+		x = peelInt(x)
+		a, ok := x.v.(*ssa.BinOp)
 		if !ok || a.Op != token.ADD {
 			return false
 		}
-		n, isC := constBig(a.Y)
-		return isC && n.Cmp(big.NewInt(1)) == 0 && isQuo(a.X)
+		n, isC := constBig(peelInt(rvalG4{a.Y, x.env}).v)
+		return isC && n.Cmp(big.NewInt(1)) == 0 && isQuo(rvalG4{a.X, x.env})
 	}
 	remD := "(" + desc(L) + " % " + desc(ipp) + ")"
 	remAtom := "(" + remD + " == 0)"
@@ -435,7 +638,55 @@ func runC44(c *Ctx) {
 		return (!l.Pos && atomMatch(remAtom, l.Atom)) || (l.Pos && l.Atom == "(0 < "+remD+")") || (!l.Pos && l.Atom == "("+remD+" < 1)")
 	}
 	emptyAtom := "(" + desc(L) + " == 0)"
+	// The computed page count may be selected by a phi (`n++` under a test), by
+	// several returns (`if rem != 0 { return q + 1 }; return q`), in paginate2 or
+	// in a new helper it calls: every alternative is a leaf with the branch
+	// literal it is selected under.
+	type pcLeaf struct {
+		v   rvalG4
+		lit Lit
+		has bool
+	}
+	closestGuard := func(b *ssa.BasicBlock) (Lit, bool) {
+		if gs := guardsOfBlock(b); len(gs) > 0 {
+			return gs[0].Lit, true
+		}
+		return Lit{}, false
+	}
+	var leaves func(x rvalG4, lit Lit, has bool, d int) []pcLeaf
+	leaves = func(x rvalG4, lit Lit, has bool, d int) []pcLeaf {
+		x = peelInt(x)
+		if d < 4 {
+			if ph, ok := x.v.(*ssa.Phi); ok && len(ph.Edges) == 2 {
+				var out []pcLeaf
+				for k, e := range ph.Edges {
+					pred := ph.Block().Preds[k]
+					l, h := edgeLit(pred, ph.Block())
+					if !h && len(pred.Preds) == 1 {
+						l, h = edgeLit(pred.Preds[0], pred)
+					}
+					out = append(out, leaves(rvalG4{e, x.env}, l, h, d+1)...)
+				}
+				return out
+			}
+			if cl, ok := x.v.(*ssa.Call); ok {
+				if h := newHelperCallee(cl); h != nil && h.Signature.Results().Len() == 1 {
+					if rs := helperReturnsG4(h); len(rs) >= 2 {
+						var out []pcLeaf
+						for _, ret := range rs {
+							l, hh := closestGuard(ret.Block())
+							out = append(out, leaves(rvalG4{retVal(ret, 0), &envG4{h, cl, x.env}}, l, hh, d+1)...)
+						}
+						return out
+					}
+				}
+			}
+		}
+		return []pcLeaf{{x, lit, has}}
+	}
 	nRet := 0
+	var computed []*ssa.Return
+	var all []pcLeaf
 	for _, r := range returnsOf(p2) {
 		if r.Block().Comment == "recover" || len(r.Results) != 1 {
 			continue
@@ -448,43 +699,44 @@ func runC44(c *Ctx) {
 			c.Check("C44.page_count", "paginate2: constant page count is 0 and returned only for the empty list", ok, p.Pos(posOf(r, p2)), "return "+desc(v))
 			continue
 		}
-		ph, isPhi := v.(*ssa.Phi)
-		if !isPhi {
-			c.Check("C44.page_count", "paginate2: page count is Len/ipp, +1 iff Len%ipp != 0", false, p.Pos(posOf(r, p2)), "unrecognised shape "+desc(v))
-			continue
-		}
-		okAll := len(ph.Edges) == 2
+		computed = append(computed, r)
+		l, h := closestGuard(r.Block())
+		all = append(all, leaves(rvalG4{v, nil}, l, h, 0)...)
+	}
+	if len(computed) > 0 {
+		okAll := len(all) == 2
 		detail := ""
 		sawPlus, sawPlain := false, false
-		for k, e := range ph.Edges {
-			pred := ph.Block().Preds[k]
-			lit, has := edgeLit(pred, ph.Block())
-			if !has && len(pred.Preds) == 1 {
-				lit, has = edgeLit(pred.Preds[0], pred)
-			}
+		for _, lf := range all {
 			switch {
-			case isQuoPlus1(e):
+			case isQuoPlus1(lf.v):
 				sawPlus = true
-				if !(has && remNonZero(lit)) {
+				if !(lf.has && remNonZero(lf.lit)) {
 					okAll = false
-					detail += "Len/ipp+1 selected under " + lit.String() + "; "
+					detail += "Len/ipp+1 selected under " + lf.lit.String() + "; "
 				}
-			case isQuo(e):
+			case isQuo(lf.v):
 				sawPlain = true
-				if !(has && remNonZero(Lit{lit.Atom, !lit.Pos})) {
+				if !(lf.has && remNonZero(Lit{lf.lit.Atom, !lf.lit.Pos})) {
 					okAll = false
-					detail += "Len/ipp selected under " + lit.String() + "; "
+					detail += "Len/ipp selected under " + lf.lit.String() + "; "
 				}
 			default:
 				okAll = false
-				detail += "unrecognised edge " + desc(e) + "; "
+				detail += "unrecognised alternative " + descG4(lf.v) + "; "
 			}
 		}
-		c.Check("C44.page_count", "paginate2: page count is Len/ipp, +1 iff Len%ipp != 0", okAll && sawPlus && sawPlain, p.Pos(posOf(r, p2)), detail)
+		c.Check("C44.page_count", "paginate2: page count is Len/ipp, +1 iff Len%ipp != 0", okAll && sawPlus && sawPlain, p.Pos(posOf(computed[0], p2)), detail)
 		// the non-empty result is returned only for a non-empty list
-		rr := r
 		c.checkMustPassPred(p, p2, "C44.page_count", "paginate2: Slice/Set and the computed page count only for a non-empty list",
-			func(i ssa.Instruction) bool { return i == ssa.Instruction(rr) || i == ssa.Instruction(sliceCall) },
+			func(i ssa.Instruction) bool {
+				for _, rr := range computed {
+					if i == ssa.Instruction(rr) {
+						return true
+					}
+				}
+				return i == ssa.Instruction(sliceCall)
+			},
 			func(l Lit) bool { return !l.Pos && atomMatch(emptyAtom, l.Atom) })
 	}
 	c.Floor("C44.page_count", nRet, 2)
@@ -492,21 +744,25 @@ func runC44(c *Ctx) {
 	// ---- (6) callers of paginate
 	c.Check("C44.caller.static", "paginate: never used as a function value", len(pesc) == 0, p.Pos(pg.Pos()), "")
 	for _, s := range psites {
-		fn := s.Parent()
+		fn := s.root
 		c.Analysed(fnName(fn))
-		cl, ok := s.(*ssa.Call)
+		cl, ok := s.call.(*ssa.Call)
 		if !ok {
-			c.Check("C44.caller.static", fnName(fn)+": paginate is called synchronously", false, p.Pos(s.Pos()), "go/defer call")
+			c.Check("C44.caller.static", fnName(fn)+": paginate is called synchronously", false, p.Pos(s.call.Pos()), "go/defer call")
 			continue
 		}
-		a0 := stripConv(cl.Call.Args[0])
+		a0 := peelG4(rvalG4{cl.Call.Args[0], s.env}).v
 		isPS := false
 		if pt, ok := a0.Type().Underlying().(*types.Pointer); ok {
 			_, isPS = pt.Elem().Underlying().(*types.Slice)
 		}
 		c.Check("C44.caller.ptr_to_slice", fnName(fn)+": paginate receives a pointer to a slice", isPS, p.Pos(cl.Pos()), typeStr(a0.Type()))
-		errNil := "(" + desc(cl) + "#1 == nil)"
-		c.checkMustPassPred(p, fn, "C44.caller.reject", fnName(fn)+": (*gin.Context).JSON response only after paginate returned a nil error",
+		// the error is described for this logical site: the handler's test of the
+		// error a forwarding helper hands back is a test of paginate's error
+		errNil := "(" + descG4(rvalG4{cl, s.env}) + "#1 == nil)"
+		// (RunG4: a helper that answers the error itself and hands back
+		// (pageCount, ok) is followed with the `ok` it returned on each path)
+		c.checkMustPassPredG4(p, fn, "C44.caller.reject", fnName(fn)+": (*gin.Context).JSON response only after paginate returned a nil error",
 			callTo("(*github.com/gin-gonic/gin.Context).JSON"),
 			func(l Lit) bool { return l.Pos && atomMatch(errNil, l.Atom) })
 		// (7) the request parameter named itemsPerPage is the one that reaches
@@ -517,7 +773,7 @@ func runC44(c *Ctx) {
 			if k+1 >= len(cl.Call.Args) {
 				continue
 			}
-			keys, ok := queryKeysR3c44(cl.Call.Args[k+1], 0)
+			keys, ok := queryKeysR3c44(peelG4(rvalG4{cl.Call.Args[k+1], s.env}).v, 0)
 			good := ok && len(keys) > 0
 			for _, q := range keys {
 				if q != ai.name {
@@ -525,7 +781,7 @@ func runC44(c *Ctx) {
 				}
 			}
 			c.Check("C44.caller.query_role", fmt.Sprintf("%s: paginate argument %d (%s) is the request's query parameter %q", fnName(fn), k+1, ai.name, ai.name),
-				good, p.Pos(cl.Pos()), fmt.Sprintf("got %s (query parameters %q, resolved=%v): the value a client sends as %q must be the one parsed as %s", desc(cl.Call.Args[k+1]), keys, ok, ai.name, ai.name))
+				good, p.Pos(cl.Pos()), fmt.Sprintf("got %s (query parameters %q, resolved=%v): the value a client sends as %q must be the one parsed as %s", descG4(rvalG4{cl.Call.Args[k+1], s.env}), keys, ok, ai.name, ai.name))
 		}
 	}
 	c.Floor("C44.caller.query_role", 2*len(psites), 30)
